@@ -9,6 +9,18 @@ HERE = os.path.dirname(os.path.dirname(os.path.abspath(__file__)))
 
 # id -> (category, technique, level text, level note, design ref, engine)
 CHECKS = {
+    "C03": (
+        "exploration",
+        "runtime round-trip monitor: real dump/load on generated objects under sampled (compress, protocol, target, load-from) combinations, structural-isomorphism oracle, renamed-file reloads",
+        "Objects from a recursive generator (builtin scalars/containers, user classes, shared and cyclic references, payloads at the 8 KiB / 64 KiB / 1 MiB boundaries, containers holding numpy arrays) are dumped with every form of the compress argument (bool, 0-9, name, (name, level), extension-implied, mismatching name vs extension), protocols 0-5, to paths, Path objects, open files and BytesIO, loaded back from path / file object / buffer, and compared by an isomorphism that checks values and aliasing; each file is then renamed to every other extension and loaded again; the compressor actually found in the file content is compared with the documented choice.",
+        "iso() is the equality notion; lz4 absent (only the ValueError is asserted); sampling over the configuration product, not exhaustive.",
+        "3/C03", "objuniverse"),
+    "C14": (
+        "fault_enumeration",
+        "fault injection on files with resource-budget monitors: every truncation (exhaustive <= 4 KiB) and a suffix set applied to valid files, loads run under executed-line / CPU / address-space budgets; Memory entries damaged likewise",
+        "Valid files from the C03 generator (all compressors, protocols 2-5, numpy arrays) are truncated at every length (files <= 4 KiB; boundary-biased beyond) and extended with 1 byte, junk, a second copy and a different valid stream; each damaged load must raise or return an object isomorphic to the original within budgets of executed lines in joblib's persistence modules, own CPU time and 2 GiB address space (exceeding one is the non-termination witness). Warm Memory entries are damaged the same ways and the cached call must return the plain value without raising.",
+        "Budgets are orders of magnitude above the undamaged load (baseline recorded); damage is truncation/extension only (no bit flips); loads go through BytesIO for the file clause and through real files for the Memory clause.",
+        "3/C14", "budgets"),
     "C07": (
         "exploration",
         "differential runtime oracle: real filter_args vs inspect.Signature.bind over an exhaustive enumeration of signatures x call shapes",
